@@ -250,9 +250,14 @@ def convert_and_export(c, sgy, d):
         with SgzConverter(sgz) as conv:
             # what the same object served before must not matter (D46/D47): a tracefield grid (leaves the header memo in
             # the padded mode on irregular files), a regenerated header, or an earlier export of the same file
-            hist = c['dseed'] % 4
+            hist = c['dseed'] % 5
             if hist == 1 and conv.stored_header_keys:
                 conv.get_tracefield_values(conv.stored_header_keys[-1])
+            elif hist == 4:
+                # EVERY stored array loaded in the padded mode (a user looking at all header grids), then the export, which needs
+                # them unpadded
+                for k_ in list(conv.stored_header_keys):
+                    conv.get_tracefield_values(k_)
             elif hist == 2:
                 conv.gen_trace_header(conv.tracecount - 1)
             elif hist == 3:
